@@ -118,7 +118,7 @@ def sub_case(draw, tier="quick"):
     cfg = draw(st.sampled_from(SUB))
     return {"cfg": cfg, "v": [draw(C.ints(9)) for _ in range(12)], "on": draw(st.sampled_from([False, False, True])), "s1": draw(C.scale()), "s2": draw(C.scale()),
             "coef": [draw(st.integers(-3, 3)) for _ in range(2)], "coll": draw(st.sampled_from([0, 0, 2])), "off": draw(st.integers(-5, 5)),
-            "derive": draw(st.sampled_from([None, None, "translation*", "scaling*"])), "move": [draw(st.integers(-4, 4)) for _ in range(3)]}
+            "derive": draw(st.sampled_from([None, None, "translation*", "scaling*", "k*identity"])), "move": [draw(st.integers(-4, 4)) for _ in range(3)]}
 
 
 def run_sub(c):
@@ -210,7 +210,7 @@ def run_sub(c):
 def poly_case(draw, tier="quick"):
     cfg = draw(st.sampled_from(["segment2", "segment3", "polygon2", "polygon3", "cuboid"]))
     return {"cfg": cfg, "v": draw(Z.params()), "q": [draw(st.integers(-8, 8)) for _ in range(3)], "k": draw(st.integers(-4, 4)), "st": [draw(st.integers(-2, 6)), draw(st.integers(-2, 6))],
-            "coll": draw(st.sampled_from([0, 0, 2])), "derive": draw(st.sampled_from([None, None, "translation*", "+point", "scaling*"])), "move": [draw(st.integers(-4, 4)) for _ in range(3)]}
+            "coll": draw(st.sampled_from([0, 0, 2])), "derive": draw(st.sampled_from([None, None, "translation*", "+point", "scaling*", "k*identity"])), "move": [draw(st.integers(-4, 4)) for _ in range(3)]}
 
 
 def seg_dist(p, a, b):
